@@ -178,8 +178,9 @@ def run_cfg(chk, facts, cfg):
             if recv.get('k') == 'ref' and recv.get('mut'):
                 continue  # updaters
             if recv.get('k') != 'ref':
-                # by-value receivers: merges (consume operands) only
-                chk.ob('%s:%s:%s:receiver%s' % (PID, name, f['name'], sfx), 'E0-types', 'a by-value method of a state type is a merge', f['name'] == 'add', '', facts.loc(f['id']))
+                # by-value receivers operate on a state that was moved or copied into the call: the caller's own state
+                # (if it still has one) cannot be modified through them
+                chk.ob('%s:%s:%s:receiver%s' % (PID, name, f['name'], sfx), 'E0-types', 'a by-value method works on a moved / copied state and cannot modify the caller\'s', True, '', facts.loc(f['id']))
     from ..effects import obligation as no_hidden_state
     no_hidden_state(chk, PID, facts, sfx, 'no function of the crate reaches thread-local / cell / lock / atomic state (queries cannot depend on earlier queries)')
     # the one lazy static is initialised from constants
